@@ -25,6 +25,10 @@ pub enum Step {
     NewClient,
     /// change the behaviour of the three endpoints
     Swap { https: String, http: String, tcp: String },
+    /// disk cache only: every file under the cache directory is left empty (how = 0: what a crash between
+    /// create and write leaves) or overwritten with an HTML error page (how = 1: a foreign writer). Neither
+    /// parses as an answer, so the cache holds nothing usable: the next query must go to the network.
+    PoisonCache { how: u8 },
 }
 
 #[derive(Clone, Debug, Serialize, Deserialize)]
@@ -163,7 +167,7 @@ impl Scenario for Failover {
         "exploration"
     }
     fn rule(&self) -> &'static str {
-        "Per run: a behaviour for each of the three endpoints (TACT HTTPS, TACT HTTP, Ribbit TCP) out of {valid BPSV, valid V1 MIME (two disposition styles), valid V2 text, V2 text with a blank line, 500/502/503/504, 429 with/without Retry-After, 400/403/404, 200 with malformed/empty body, refused, reset, closed before/mid response, stall}, an endpoint class (versions/cdns/bgdl/TCP-only summary+certs/other), memory or disk protocol cache, a TCP segmentation policy, and a script of 1-6 steps Query | Advance(before/after the class's TTL) | NewClient(same cache dir) | SwapBehaviours, on the real RibbitTactClient over the simulated network under the virtual clock. Oracle: executable decision table (request log = prefix of [https,http,tcp] stopping at the first well-formed answer or definitive refusal; Ok iff that endpoint answered, document equal to what it served; cached answers produce zero network events until the TTL, at least one after; failures are never cached), and the same script repeated under other segmentations must give identical outcomes. One run in eight is a CDN run instead (scen/cdn.rs): the real CdnClient (download / download_archive_index) + ProtocolCache (memory or disk) over the simulated HTTP transport; a script of 1-7 steps Download(key, content type, per-request behaviour queue) | Index | Advance(around the configured TTLs) | NewClient(same directory); the host answers the successive requests of a download from the queue {ok, 5xx x8, 429 with no / 0 / 1 / 7 / unparsable Retry-After, 400/403/404/410, refused, reset, client time-out, body reset, body stall}. C13's oracles there: a download within the smallest configured TTL of a successful one sends no request and returns the same bytes (also by a new client on the same directory), after the largest TTL it sends one, a failed download is never served from the cache, every request names the caller's object, bytes equal what was served, a broken body is never Ok. Non-trivial = >= 2 queries or >= 1 fail-over; faults counted when they fire; distinct = hash of (case, request log, outcomes)."
+        "Per run: a behaviour for each of the three endpoints (TACT HTTPS, TACT HTTP, Ribbit TCP) out of {valid BPSV, valid V1 MIME (two disposition styles), valid V2 text, V2 text with a blank line, 500/502/503/504, 429 with/without Retry-After, 400/403/404, 200 with malformed/empty body, refused, reset, closed before/mid response, stall}, an endpoint class (versions/cdns/bgdl/TCP-only summary+certs/other), memory or disk protocol cache, a TCP segmentation policy, and a script of 1-6 steps Query | Advance(before/after the class's TTL) | NewClient(same cache dir) | SwapBehaviours | (one disk-cache run in six) PoisonCache = every file under the cache directory left empty or overwritten with an HTML page, after which nothing usable is cached and a query must walk the chain again, on the real RibbitTactClient over the simulated network under the virtual clock. Oracle: executable decision table (request log = prefix of [https,http,tcp] stopping at the first well-formed answer or definitive refusal; Ok iff that endpoint answered, document equal to what it served; cached answers produce zero network events until the TTL, at least one after; failures are never cached), and the same script repeated under other segmentations must give identical outcomes. One run in eight is a CDN run instead (scen/cdn.rs): the real CdnClient (download / download_archive_index) + ProtocolCache (memory or disk) over the simulated HTTP transport; a script of 1-7 steps Download(key, content type, per-request behaviour queue) | Index | Advance(around the configured TTLs) | NewClient(same directory); the host answers the successive requests of a download from the queue {ok, 5xx x8, 429 with no / 0 / 1 / 7 / unparsable Retry-After, 400/403/404/410, refused, reset, client time-out, body reset, body stall}. C13's oracles there: a download within the smallest configured TTL of a successful one sends no request and returns the same bytes (also by a new client on the same directory), after the largest TTL it sends one, a failed download is never served from the cache, every request names the caller's object, bytes equal what was served, a broken body is never Ok. Non-trivial = >= 2 queries or >= 1 fail-over; faults counted when they fire; distinct = hash of (case, request log, outcomes)."
     }
     fn assumptions(&self) -> Vec<&'static str> {
         vec![
@@ -227,7 +231,7 @@ impl Scenario for Failover {
             };
             script.push(st);
         }
-        Case {
+        let case = Case {
             https: pick_http(rng),
             http: pick_http(rng),
             tcp: pick_tcp(rng),
@@ -241,7 +245,15 @@ impl Scenario for Failover {
             no_http: rng.chance(1, 10),
             // drawn last: one run in eight exercises the CDN client's cache-then-fetch-then-store instead
             cdn: if rng.chance(1, 8) { Some(super::cdn::generate(rng)) } else { None },
+        };
+        // drawn after everything else: one disk-cache run in six has its cache files emptied / overwritten once
+        let mut case = case;
+        if case.cache == "disk" && case.cdn.is_none() && rng.chance(1, 6) {
+            let at = rng.range(1, case.script.len() as u64) as usize;
+            case.script.insert(at.min(case.script.len()), Step::PoisonCache { how: rng.below(2) as u8 });
+            case.script.push(Step::Query);
         }
+        case
     }
 
     fn execute(&self, case: &Case, ctx: &mut Ctx) -> Option<Violation> {
@@ -572,6 +584,31 @@ async fn run_script(case: &Case, seg: &str, docs: &[String; 3], ctx: &mut Ctx, v
                 }
                 if primary {
                     ctx.event(|| json!({"k":"op","op":"new_client","cache":case.cache}));
+                }
+                outcomes.push(Outcome::Other);
+            }
+            Step::PoisonCache { how } => {
+                let mut n = 0u32;
+                if case.cache == "disk" {
+                    let mut stack = vec![cache_dir.clone()];
+                    while let Some(d) = stack.pop() {
+                        for e in std::fs::read_dir(&d).into_iter().flatten().flatten() {
+                            let p = e.path();
+                            if p.is_dir() {
+                                stack.push(p);
+                            } else if std::fs::write(&p, if *how == 0 { &b""[..] } else { &b"<html><body>Service temporarily unavailable</body></html>\n"[..] }).is_ok() {
+                                n += 1;
+                            }
+                        }
+                    }
+                    if n > 0 {
+                        // whatever was cached is gone: nothing usable is cached
+                        cached = None;
+                        net.count("fault:cache_file_emptied_or_overwritten");
+                    }
+                }
+                if primary {
+                    ctx.event(|| json!({"k":"fault","fault":"poison_cache_files","how":how,"files":n}));
                 }
                 outcomes.push(Outcome::Other);
             }
